@@ -57,7 +57,7 @@ CaseResult run_case(Tape &t, long)
   auto fds0 = hz::snapshot_self_fds();
   H hs[3];
   std::vector<std::string> log;
-  int misuse = 0, good_starts = 0, nsteps = 0;
+  int misuse = 0, good_starts = 0, nsteps = 0, transient_faults = 0, transient_hit = 0;
   uint64_t h = 0;
   bool in_child_side = false;
   size_t nops = (size_t) t.range(1, fw::tier() == "thorough" ? 120 : 40);
@@ -82,6 +82,18 @@ CaseResult run_case(Tape &t, long)
     if (!use_null && x.st == DESTROYED && kind != K_NEW) continue;  // no dangling pointers: valid pointers only
     std::set<int> allowed;
     bool any_nonneg = false, any_positive = false;  // wildcard classes
+    // Now and then the next boundary call of one kind is interrupted (EINTR):
+    // the call may fail with that error, but it must leave the handle exactly
+    // as it was - the rest of the sequence checks that.
+    int armed = -1;
+    vs_fail_nth(-1, -1);  // nothing left armed by a step that was skipped
+    if (kind != K_START && kind != K_NEW && kind != K_DESTROY && kind != K_CHILD && t.chance(1, 10)) {
+      static const int fns[] = { VS_POLL, VS_WAITPID, VS_READ, VS_WRITE };
+      armed = fns[t.pick(4)];
+      vs_fail_nth(armed, 0);
+      transient_faults++;
+    }
+    unsigned faults_before = vs_nth_fired();
     int r = 0;
     std::string desc;
     nsteps++;
@@ -504,8 +516,13 @@ CaseResult run_case(Tape &t, long)
         // make sure destroy cannot wait for ever on a scripted child
         vt::Kid *k = kid_of(x);
         if (k && k->alive) w.perform({ x.ch.kid, vt::A_EXIT, 0, 0 });
+        pid_t dpid = x.ch.pid;
+        bool had_child = x.st == RUNNING || x.st == EXITED;
         reproc_t *ret = reproc_destroy(x.p);
         if (ret) res.fail("destroy-non-null", "destroy did not return NULL");
+        // the child is dead by now: whatever happened earlier in the sequence
+        // (failed or interrupted calls included), destroy's stop policy reaps it
+        if (had_child && dpid > 0 && vs_is_live(dpid)) res.fail("destroy-left-child-unreaped", "destroy returned but the (already dead) child of this handle was not reaped");
         x.ch.pup.reset();
         x.p = nullptr;
         x.st = DESTROYED;
@@ -542,8 +559,14 @@ CaseResult run_case(Tape &t, long)
       }
       default: continue;
     }
-    log.push_back((use_null ? std::string("NULL ") : "h" + std::to_string(hi) + " ") + desc + "=" + rname(r));
-    bool ok = allowed.count(r) != 0 || (any_nonneg && r >= 0) || (any_positive && r > 0);
+    bool interrupted = false;
+    if (armed >= 0) {
+      vs_fail_nth(-1, -1);
+      interrupted = vs_nth_fired() != faults_before;
+      if (interrupted) transient_hit++;
+    }
+    log.push_back((use_null ? std::string("NULL ") : "h" + std::to_string(hi) + " ") + desc + "=" + rname(r) + (interrupted ? " [a call was interrupted]" : ""));
+    bool ok = allowed.count(r) != 0 || (any_nonneg && r >= 0) || (any_positive && r > 0) || (interrupted && r == -EINTR);
     if (!ok && res.kind == CaseResult::PASS) {
       std::string want;
       for (int v : allowed) {
@@ -567,6 +590,7 @@ CaseResult run_case(Tape &t, long)
   if (good_starts > 0) res.cls("successful-start");
   if (good_starts >= 2) res.cls("several-children");
   if (in_child_side) res.cls("fork-child-side");
+  if (transient_hit > 0) res.cls("interrupted-call");
   std::vector<std::string> jl;
   for (size_t i = 0; i < log.size() && i < 60; i++) jl.push_back(jstr(log[i]));
   res.describe = J().kv("calls", nsteps).raw("sequence", jarr(jl)).str();
